@@ -33,13 +33,15 @@ def main():
     d1 = run(["/venv/bin/python", os.path.join(out, "demo.py")], cwd=wt, env=env)
     meta["demo_with_change_exit"] = d1.returncode
     meta["demo_with_change_tail"] = (d1.stdout + d1.stderr).strip().splitlines()[-1:] 
-    run(["git", "-C", wt, "stash"])
+    patchfile = os.path.join(out, "_try_seed.diff")
+    open(patchfile, "w").write(diff)
+    assert run(["git", "-C", wt, "apply", "-R", patchfile]).returncode == 0
     try:
         shutil.rmtree(os.path.join(out, "__pkts__"), ignore_errors=True)
         d0 = run(["/venv/bin/python", os.path.join(out, "demo.py")], cwd=wt, env=env)
         meta["demo_without_change_exit"] = d0.returncode
     finally:
-        run(["git", "-C", wt, "stash", "pop"])
+        assert run(["git", "-C", wt, "apply", patchfile]).returncode == 0
     shutil.rmtree(os.path.join(out, "__pkts__"), ignore_errors=True)
     ok = t.returncode == 0 and d1.returncode != 0 and d0.returncode == 0
     meta["confirmed"] = ok
